@@ -63,7 +63,7 @@ theorem recordPool_viewSame (w : World) (a : Nat) : ViewSame w (recordPool w a) 
 
 /-- `in_use = v` -/
 theorem setPoolInUse_upd {w : World} {pl : Nat} {v : PView} (hv : poolView w pl = some v) (u : Nat) :
-    PoolUpd w (setPoolInUse w pl u) pl { v with inUse := u } ∧
+    PoolUpd w (setPoolInUse w pl u) pl ⟨v.cap, u, v.holders⟩ ∧
     ∀ q, ((setPoolInUse w pl u).proc q).held = (w.proc q).held := by
   obtain ⟨x, hx, rfl⟩ := poolView_some.1 hv
   have hf := setPoolInUse_fp w pl u
@@ -79,7 +79,7 @@ theorem setPoolInUse_upd {w : World} {pl : Nat} {v : PView} (hv : poolView w pl 
 
 /-- the holder list of pool `pl` is replaced (raw record update as written in the model) -/
 theorem setHolders_upd {w : World} {pl : Nat} {x : Pool} (hx : w.pools[pl]? = some x) (h' : HH) :
-    PoolUpd w { w with pools := w.pools.set! pl { x with holders := h' } } pl { x.view with holders := h' } := by
+    PoolUpd w { w with pools := w.pools.set! pl { x with holders := h' } } pl ⟨x.cap, x.inUse, h'⟩ := by
   refine ⟨rfl, ?_, ?_, fun _ _ _ => Iff.rfl⟩
   · unfold poolView
     show ((w.pools.set! pl _)[pl]?).map Pool.view = _
@@ -123,7 +123,7 @@ theorem poolUpdateRecord_absent {w : World} {pl : Nat} {x : Pool} (hx : w.pools[
 theorem poolUpdateRecord_upd {w : World} {pl : Nat} {v : PView} (hv : poolView w pl = some v)
     (ok : HoldersOK w.procs.size v.holders) (hn : w.procs.size < 2 ^ 31) {p : Pid} (hp : p < w.procs.size)
     (lk : Linked w pl v.holders) (amt : Nat) :
-    ∃ h', PoolUpd w (poolUpdateRecord w pl p amt) pl { v with holders := h' } ∧
+    ∃ h', PoolUpd w (poolUpdateRecord w pl p amt) pl ⟨v.cap, v.inUse, h'⟩ ∧
       HoldersOK w.procs.size h' ∧ Linked (poolUpdateRecord w pl p amt) pl h' ∧
       amounts (abs h') = amounts (abs v.holders) + amt ∧
       amountOf (abs h') (p + 1) = amountOf (abs v.holders) (p + 1) + amt ∧
@@ -217,13 +217,13 @@ theorem PSt.record {w0 w : World} {pl : Nat} {v : PView} (h : PSt w0 w pl v) (a 
   h.viewSame (recordPool_viewSame w a)
 
 theorem PSt.setInUse {w0 w : World} {pl : Nat} {v : PView} (h : PSt w0 w pl v) (u : Nat) :
-    PSt w0 (setPoolInUse w pl u) pl { v with inUse := u } := by
+    PSt w0 (setPoolInUse w pl u) pl ⟨v.cap, u, v.holders⟩ := by
   obtain ⟨hu, hh⟩ := setPoolInUse_upd h.upd.view u
   exact ⟨h.upd.trans hu, h.hok, fun q => by rw [hh q]; exact h.lk q⟩
 
 theorem PSt.update {w0 w : World} {pl : Nat} {v : PView} (h : PSt w0 w pl v) (hn : w0.procs.size < 2 ^ 31)
     {p : Pid} (hp : p < w0.procs.size) (amt : Nat) :
-    ∃ h', PSt w0 (poolUpdateRecord w pl p amt) pl { v with holders := h' } ∧
+    ∃ h', PSt w0 (poolUpdateRecord w pl p amt) pl ⟨v.cap, v.inUse, h'⟩ ∧
       amounts (abs h') = amounts (abs v.holders) + amt ∧
       amountOf (abs h') (p + 1) = amountOf (abs v.holders) (p + 1) + amt ∧
       (∀ k, k ≠ p + 1 → amountOf (abs h') k = amountOf (abs v.holders) k) := by
@@ -234,7 +234,7 @@ theorem PSt.update {w0 w : World} {pl : Nat} {v : PView} (h : PSt w0 w pl v) (hn
 
 theorem PSt.setHeld {w0 w : World} {pl : Nat} {v : PView} (h : PSt w0 w pl v) {p : Pid}
     (hk : p + 1 ∈ keys (abs v.holders)) (a : Nat) :
-    ∃ h', PSt w0 (setHeldAmount w pl p a) pl { v with holders := h' } ∧
+    ∃ h', PSt w0 (setHeldAmount w pl p a) pl ⟨v.cap, v.inUse, h'⟩ ∧
       amounts (abs h') + amountOf (abs v.holders) (p + 1) = amounts (abs v.holders) + a ∧
       amountOf (abs h') (p + 1) = a ∧
       (∀ k, k ≠ p + 1 → amountOf (abs h') k = amountOf (abs v.holders) k) := by
@@ -299,10 +299,10 @@ theorem linked_drop {w w' : World} {pl : Nat} {h h' : HH} {p : Pid} (lk : Linked
 
 /-- replace the holder list, then drop the pool from `p`'s held list -/
 theorem PSt.dropKey {w0 w w1 : World} {pl : Nat} {v : PView} (h : PSt w0 w pl v) {h' : HH} {p : Pid}
-    (hu : PoolUpd w w1 pl { v with holders := h' }) (hsame : ∀ q, (w1.proc q).held = (w.proc q).held)
+    (hu : PoolUpd w w1 pl ⟨v.cap, v.inUse, h'⟩) (hsame : ∀ q, (w1.proc q).held = (w.proc q).held)
     (ok' : HoldersOK w0.procs.size h')
     (hkeys : ∀ k, k ∈ keys (abs h') ↔ k ∈ keys (abs v.holders) ∧ k ≠ p + 1) :
-    PSt w0 (removeHeld w1 p (.pool pl)).1 pl { v with holders := h' } := by
+    PSt w0 (removeHeld w1 p (.pool pl)).1 pl ⟨v.cap, v.inUse, h'⟩ := by
   obtain ⟨hsz, hvw⟩ := removeHeld_viewFacts w1 p (.pool pl)
   refine ⟨h.upd.trans (hu.trans ⟨hsz, by rw [hvw]; exact hu.view, fun pl' _ => hvw pl', ?_⟩), ok', ?_⟩
   · intro q pl' hne
@@ -319,11 +319,11 @@ theorem PSt.dropKey {w0 w w1 : World} {pl : Nat} {v : PView} (h : PSt w0 w pl v)
 
 /-- same, when nothing has to be dropped from the held list because the key was not there -/
 theorem PSt.dropAbsent {w0 w w1 : World} {pl : Nat} {v : PView} (h : PSt w0 w pl v) {h' : HH} {p : Pid}
-    (hu : PoolUpd w w1 pl { v with holders := h' }) (hsame : ∀ q, (w1.proc q).held = (w.proc q).held)
+    (hu : PoolUpd w w1 pl ⟨v.cap, v.inUse, h'⟩) (hsame : ∀ q, (w1.proc q).held = (w.proc q).held)
     (ok' : HoldersOK w0.procs.size h')
     (hkeys : ∀ k, k ∈ keys (abs h') ↔ k ∈ keys (abs v.holders) ∧ k ≠ p + 1)
     (habs : p + 1 ∉ keys (abs v.holders)) :
-    PSt w0 w1 pl { v with holders := h' } := by
+    PSt w0 w1 pl ⟨v.cap, v.inUse, h'⟩ := by
   refine ⟨h.upd.trans hu, ok', ?_⟩
   intro q
   rw [hsame q, h.lk q, hkeys]
@@ -333,7 +333,7 @@ theorem PSt.dropAbsent {w0 w w1 : World} {pl : Nat} {v : PView} (h : PSt w0 w pl
 
 /-- the holder list of pool `pl` is replaced (the `modify` form of the update) -/
 theorem modifyHolders_upd {w : World} {pl : Nat} {v : PView} (hv : poolView w pl = some v) (h' : HH) :
-    PoolUpd w { w with pools := w.pools.modify pl fun y => { y with holders := h' } } pl { v with holders := h' } := by
+    PoolUpd w { w with pools := w.pools.modify pl fun y => { y with holders := h' } } pl ⟨v.cap, v.inUse, h'⟩ := by
   obtain ⟨x, hx, rfl⟩ := poolView_some.1 hv
   refine ⟨rfl, ?_, ?_, fun _ _ _ => Iff.rfl⟩
   · unfold poolView
